@@ -49,74 +49,76 @@ type SchedEntry struct {
 }
 
 type RunCfg struct {
-	Root      string
-	Prog      *Prog
-	FCfg      *FCfg
-	Flags     []string
-	JobMode   string // "local" or a cluster template
-	Sched     *Tape
-	MaxSteps  int
-	MapMode   int
-	MapSalt   uint64
-	WMrp      int // scheduling weights
-	WJob      int
-	WAux      int
-	WTime     int
-	Crashes   []CrashSpec
-	JobFaults map[string]string
-	SplitFiles bool // write the program as call file + included declarations
+	Root             string
+	Prog             *Prog
+	FCfg             *FCfg
+	Flags            []string
+	JobMode          string // "local" or a cluster template
+	Sched            *Tape
+	MaxSteps         int
+	MapMode          int
+	MapSalt          uint64
+	WMrp             int // scheduling weights
+	WJob             int
+	WAux             int
+	WTime            int
+	Crashes          []CrashSpec
+	JobFaults        map[string]string
+	SplitFiles       bool // write the program as call file + included declarations
 	RestartTransform string
-	ExtraFiles bool
-	LinkDirs   bool // stages may report outputs through a symlinked sub-directory of files/
-	Companions bool // stages may write x.idx next to an output file x
-	ChunkRes   bool // splits return per-chunk resource requests
-	SlowLabel string // tasks whose label contains this get SlowDiv times less weight
-	SlowDiv   int
-	Restarts  int  // maximal number of restarts the operator performs
-	KeepTrace bool // keep the full schedule trace (else only a rolling hash)
-	Env       map[string]string
+	ExtraFiles       bool
+	LinkDirs         bool   // stages may report outputs through a symlinked sub-directory of files/
+	DirOutputs       bool   // a file-typed output may be a directory holding several files
+	Companions       bool   // stages may write x.idx next to an output file x
+	ChunkRes         bool   // splits return per-chunk resource requests
+	SlowLabel        string // tasks whose label contains this get SlowDiv times less weight
+	SlowDiv          int
+	Restarts         int  // maximal number of restarts the operator performs
+	KeepTrace        bool // keep the full schedule trace (else only a rolling hash)
+	Env              map[string]string
 	// Edited invocation for restarts (C15); nil = same.
 	RestartProg func(inc int) *Prog
 }
 
 type Run struct {
-	Cfg    *RunCfg
-	Prog   *Prog
-	FCfg   *FCfg
-	Root   string
-	PsDir  string
-	MroDir string
-	Inc    int
-	Mrp    *vrt.Proc
-	Mrps   []*vrt.Proc
-	Jobs   []*JobRec
-	Steps  int
-	Trace  []SchedEntry
-	SchedHash uint64
-	Violations []Violation
-	Probes     map[string]int
-	Faults     map[string]int // fault kinds that actually fired
-	StepHooks  []func()
-	OnJobStart func(j *JobRec)
-	PreStart   func()
-	ExtraLaunch func(p *vrt.Proc, c *vproc.Cmd) func() int
-	DupJournal  func(j *JobRec) bool
+	Cfg           *RunCfg
+	Prog          *Prog
+	FCfg          *FCfg
+	Root          string
+	PsDir         string
+	MroDir        string
+	Inc           int
+	Mrp           *vrt.Proc
+	Mrps          []*vrt.Proc
+	Jobs          []*JobRec
+	Steps         int
+	Trace         []SchedEntry
+	SchedHash     uint64
+	Violations    []Violation
+	Probes        map[string]int
+	Faults        map[string]int // fault kinds that actually fired
+	StepHooks     []func()
+	OnJobStart    func(j *JobRec)
+	PreStart      func()
+	ExtraLaunch   func(p *vrt.Proc, c *vproc.Cmd) func() int
+	DupJournal    func(j *JobRec) bool
 	DropHeartbeat func(j *JobRec) bool
-	Files      map[string]*FileRec // files written by stage code, by (real) path
-	Logical    map[string]string   // reported path -> real path, where they differ
-	Start      time.Time
-	SimTime    time.Duration
-	ExitCodes  []int
-	Stalled    bool
-	StepLimit  bool
-	LastProgress int // step at which a job last started or ended, or mrp exited
-	progressSig  int
-	crashIdx   int
-	Output     []string // mrp stdout lines
-	outBuf     strings.Builder
-	Ops        []OpEvent
-	Panics     []string
-	HistHash   string
+	Files         map[string]*FileRec // files written by stage code, by (real) path
+	Logical       map[string]string   // reported path -> real path, where they differ
+	Dirs          map[string][]string // directory-valued outputs: reported path -> files written below it
+	Start         time.Time
+	SimTime       time.Duration
+	ExitCodes     []int
+	Stalled       bool
+	StepLimit     bool
+	LastProgress  int // step at which a job last started or ended, or mrp exited
+	progressSig   int
+	crashIdx      int
+	Output        []string // mrp stdout lines
+	outBuf        strings.Builder
+	Ops           []OpEvent
+	Panics        []string
+	HistHash      string
 }
 
 // FileRec is a file written by stage code.
@@ -125,9 +127,10 @@ type FileRec struct {
 	Content string
 	Job     *JobRec
 	Seq     int
-	Extra   bool // not named by any output
+	Extra   bool   // not named by any output
+	InDir   string // the directory-valued output this file belongs to
 	Logical string // the path the stage reported, when it differs (through a symlinked directory)
-	Tmp     bool // in the job's temporary directory
+	Tmp     bool   // in the job's temporary directory
 }
 
 // OpEvent is an operator/simulator action in the history.
@@ -226,6 +229,9 @@ func (r *Run) normFiles(v interface{}) interface{} {
 	switch x := v.(type) {
 	case string:
 		if strings.HasPrefix(x, r.PsDir+"/") {
+			if st, err := os.Stat(x); err == nil && st.IsDir() {
+				return dirToken(x)
+			}
 			if b, err := os.ReadFile(x); err == nil {
 				return "FILE:" + string(b)
 			}
@@ -248,11 +254,36 @@ func (r *Run) normFiles(v interface{}) interface{} {
 	return v
 }
 
+// dirToken stands for a directory by the names and contents of the files in it.
+func dirToken(dir string) string {
+	ents, _ := os.ReadDir(dir)
+	var parts []string
+	for _, e := range ents {
+		b, _ := os.ReadFile(path.Join(dir, e.Name()))
+		parts = append(parts, e.Name()+"="+string(b))
+	}
+	sort.Strings(parts)
+	return "DIR:" + strings.Join(parts, ";")
+}
+
 // checkArgFiles verifies that every pipestance path named in a job's arguments
 // exists with its original content when the job starts (C04 invariant i).
 func (r *Run) checkArgFiles(j *JobRec, v interface{}) {
 	switch x := v.(type) {
 	case string:
+		if kids, isDir := r.Dirs[x]; isDir {
+			// a directory-valued argument: every file written below it
+			for _, k := range kids {
+				rec := r.Files[k]
+				b, err := os.ReadFile(path.Join(x, path.Base(k)))
+				if err != nil {
+					j.MissingFiles = append(j.MissingFiles, strings.TrimPrefix(x, r.PsDir+"/")+"/"+path.Base(k))
+				} else if rec != nil && rec.Content != string(b) {
+					j.MissingFiles = append(j.MissingFiles, "CHANGED:"+strings.TrimPrefix(x, r.PsDir+"/")+"/"+path.Base(k))
+				}
+			}
+			return
+		}
 		if strings.HasPrefix(x, r.PsDir+"/") {
 			rec := r.fileRec(x)
 			b, err := os.ReadFile(x)
@@ -330,7 +361,7 @@ func SetupBase(root, repo string) error {
 
 func NewRun(cfg *RunCfg) *Run {
 	r := &Run{Cfg: cfg, Prog: cfg.Prog, FCfg: cfg.FCfg, Root: cfg.Root,
-		Probes: map[string]int{}, Faults: map[string]int{}, Files: map[string]*FileRec{}, Logical: map[string]string{}}
+		Probes: map[string]int{}, Faults: map[string]int{}, Files: map[string]*FileRec{}, Logical: map[string]string{}, Dirs: map[string][]string{}}
 	r.PsDir = path.Join(cfg.Root, "ps")
 	r.MroDir = path.Join(cfg.Root, "mro")
 	return r
